@@ -25,6 +25,15 @@ CHECKS = {
  "C03": dict(cat="exploration", tech="property-based testing with witness-space search: satisfiable set vs accepted set vs relation, complete over small fields",
    text="For every assertion kind and declared type, every width parameter and two (bitlength, small prime) pairs [thorough: five], the circuit of an accepted call is captured, the operand wires are freed and for every operand value of the window (all of F_p for one operand) the auxiliary witness space is searched completely. The satisfiable set must contain no value for which the relation is false, must contain every value the call accepts, and must equal the accepted set (same bounds, same width). The error-path circuit (ignore_errors) is compared with the captured one. Complete for each (kind, parameter, field) instance enumerated; exploration across kinds/fields.",
    note=TB + "; small prime fields stand in for the 254-bit fields (argument via C06, not decided).", ref="4 (C03)"),
+ "C07": dict(cat="exploration", tech="property-based testing: guard-mode cell sweep, lazy-selection differential, satisfiable-set search under guards, generated guarded bodies",
+   text="Every operation cell is run unguarded and under all guard nestings up to depth 2 with operand pools that include invalid values: a false level must suppress every value-caused exception and leave a satisfied, value-consistent trace; all-true guards must reproduce the unguarded values or exception type. Lazy if_then_else forms are compared with eager evaluation and, in a small field, the selected value is shown unique (unit propagation; sampled search otherwise). Assertion kinds are searched under guarded(1) (same satisfiable set as unguarded) and guarded(0) (everything satisfiable). Exploration; complete only for the enumerated small-field instances.",
+   note=TB + "; 'value-caused' is decided by the same call succeeding unguarded for other secret operand values.", ref="4 (C07)"),
+ "C15": dict(cat="exploration", tech="model-based property testing against a list-of-lists model; complete small-field search over the index wire",
+   text="Generated read/write histories on 1-D and 2-D arrays with secret/public, in-range/out-of-range indices are compared step by step with a Python list model, traces are compared across index values, and for lengths 1-4 [thorough 1-6] the read and write circuits are searched for every index value of F_p: unsatisfiable outside the bounds, uniquely the model's result inside. Exploration; search instances are complete.",
+   note=TB + "; Python list semantics as reference.", ref="4 (C15)"),
+ "C16": dict(cat="exploration", tech="exhaustive width/value grids, witness-space search for the enforced width, round-trip property testing of generated packer schemas",
+   text="All (bitlength, width, value) triples at small sizes are enumerated for to_bits/from_bits round trip and rejection; the enforced width of to_bits(n) and assert_positive(n) is decided by complete search over F_p for n != bitlength; packer schemas from a recursive strategy are round-tripped with plain and secret leaves at bit offsets. Grids exhaustive; schemas exploration.",
+   note=TB + "; packer domain: moduli >= 2, non-empty lists, times >= 1.", ref="4 (C16)"),
 }
 PENDING = {}
 
